@@ -22,6 +22,7 @@ import EPV.Lemmas.XDMItems
 import EPV.Lemmas.XDMParents
 import EPV.Lemmas.BuilderAnc
 import EPV.Lemmas.BuilderReget
+import EPV.Model.BuilderFocus
 import EPV.Lemmas.BuilderLoop
 namespace EPV.C02
 open EPV.Builder EPV.XDM
@@ -77,6 +78,22 @@ example :
     stepsKids t.kids + 1 = 6 ∧
     ((run c 6 (enterLoop c none 1 t)).map fun out => out.map (·.node.pos)) = some [1, 3, 4, 6, 8, 9, 10, 11, 12] := by
   decide
+
+/-- `tree.elements` (wrapped object ↦ node; objects identified by their pre-order index in the input,
+nodes by position).  After the loop the registry — one entry per constructed element / comment / PI
+node, in construction order — lists exactly the etree objects of the input in pre-order
+(`elem.iter()`), the k-th entry carrying the kind and name of the k-th object, and the entries point to
+pairwise different nodes (strictly increasing positions): the map is total on the input objects,
+injective, and `elements[obj]` is the node built for `obj`. -/
+theorem elements_registry (c : Cfg) (par : Option Nat) (p : Nat) (e : XTree) (he : e.isElem = true) :
+    ∃ out, run c (stepsKids e.kids + 1) (enterLoop c par p e) = some out ∧
+      (out.filter wrapped).map tagOf = srcsOne e ∧
+      ((out.filter wrapped).map (·.node.pos)).Pairwise (· < ·) := by
+  obtain ⟨out, hrun, htags, hpos⟩ := run_registry c par p e he
+  refine ⟨out, hrun, htags, ?_⟩
+  rw [hpos]
+  have hs := (buildOne_seg c e p par).2.1
+  exact hs.sublist (List.Sublist.map _ List.filter_sublist)
 
 /-! ## faithful image of the XDM tree -/
 
@@ -539,6 +556,39 @@ theorem ctx_precedes_root (i : Input) (root : PNode) (h : build i = .ok root) (a
   · simp
   · by_cases hlt : a < b <;> simp [hlt] <;> omega
 
+/-- the same for ANY context root of the tree (document, top element or an inner element): as long as
+both operands lie in the context root's subtree, `<<` / `>>` are position comparison.  (Outside:
+known finding F02e.) -/
+theorem ctx_precedes_in_scope (i : Input) (root : PNode) (h : build i = .ok root) (cr : Nat) (sub : PNode)
+    (hsub : nodeAt root cr = some sub) (a b : Nat) (hab : a ≠ b)
+    (ha : a ∈ (iterNode none sub).map (·.pos)) (hb : b ∈ (iterNode none sub).map (·.pos)) :
+    ctxPrecedes root (some cr) false a b = some (decide (a < b)) ∧
+    ctxPrecedes root (some cr) true a b = some (decide (b < a)) := by
+  have hs : ((iterNode none sub).map (·.pos)).Pairwise (· < ·) :=
+    (build_positions_strict i root h).sublist (nodeAt_sublist root cr sub hsub)
+  have hw := walkPos_strict a b hab (iterNode none sub) hs ha hb
+  have hne : (a == b) = false := by simpa using hab
+  unfold ctxPrecedes
+  simp only [hne, Bool.false_eq_true, if_false, Option.toList_some, List.cons_append, walkRoots, hsub,
+    Option.bind_some, hw]
+  constructor
+  · simp
+  · by_cases hlt : a < b <;> simp [hlt] <;> omega
+
+/-- `get_root` for any context root: the context root exactly for the nodes its `iter_lazy()` meets -/
+theorem get_root_iff (root : PNode) (cr : Nat) (sub : PNode) (hsub : nodeAt root cr = some sub)
+    (L : LazyState) (node : Nat) :
+    ctxGetRoot root (some cr) L node = some cr ↔ node ∈ ((iterNode none sub).filter (keep L)).map (·.pos) := by
+  unfold ctxGetRoot
+  simp only [hsub, lazyNode_filter]
+  constructor
+  · intro h
+    split at h
+    · rename_i hc; exact List.contains_iff_mem.1 hc
+    · cases h
+  · intro h
+    rw [if_pos (List.contains_iff_mem.2 h)]
+
 /-! ## operands are evaluated from the operator's focus -/
 
 /-- MODEL-LEVEL FACT.  In the model the value of `E1 op E2` at a focus depends on the two operand
@@ -560,5 +610,49 @@ theorem intersect_at_focus_eq_spec (i : Input) (root : PNode) (h : build i = .ok
     (focus : Nat) (hx : ∀ a ∈ e1 focus, a < (iter root).length) :
     opAtFocus (opIntersect (iter root)) e1 e2 focus = specIntersect (iter root).length (e1 focus) (e2 focus) :=
   intersect_eq_spec i root h (e1 focus) (e2 focus) _ hx (List.Perm.refl _)
+
+/-! ## the caller's focus survives every expression of the fragment -/
+
+open EPV.Focus in
+/-- FOCUS PRESERVATION (model-level lemma).  For every expression built from restoring step selectors,
+leading `/` `//`, path steps, `union` `|` `intersect` `except`, `,`, `is` `<<` `>>`, `innermost`
+`outermost` `root` — at ANY focus (item, position, size, axis) — the evaluation as the implementation
+performs it on the caller's mutable context (shared context for the comparisons, copies for the set
+operators, save/restore for the root path) returns exactly the value obtained by evaluating every
+operand at the focus of its enclosing expression, and leaves the caller's context exactly as it was. -/
+theorem evalSt_spec : ∀ (e : Expr) (f : Focus), evalSt e f = (evalPure e f, f)
+  | .leaf g, f => rfl
+  | .rootPath e, f => by
+    simp only [evalSt, evalPure, evalSt_spec e]
+  | .step norm e1 e2, f => by
+    simp only [evalSt, evalPure, evalSt_spec e1, evalSt_spec e2]
+  | .setop op e1 e2, f => by simp only [evalSt, evalPure, evalSt_spec e1, evalSt_spec e2]
+  | .cmp op e1 e2, f => by simp only [evalSt, evalPure, evalSt_spec e1, evalSt_spec e2]
+  | .comma e1 e2, f => by simp only [evalSt, evalPure, evalSt_spec e1, evalSt_spec e2]
+  | .scan op e, f => by simp only [evalSt, evalPure, evalSt_spec e]
+
+open EPV.Focus in
+/-- corollary: (item, position, size, axis) after = before -/
+theorem focus_preserved (e : Expr) (f : Focus) : (evalSt e f).2 = f := by rw [evalSt_spec]
+
+open EPV.Focus in
+/-- corollary (why the missed seeded change became invisible): since every operand gives the focus
+back, evaluating the operands of a set operator on ONE shared context instead of copies yields the
+same value. -/
+theorem shared_context_is_harmless (op : List Nat → List Nat → List Nat) (e1 e2 : Expr) (f : Focus) :
+    cmpShared op (evalSt e1) (evalSt e2) f = evalSt (.setop op e1 e2) f := by
+  simp only [cmpShared, evalSt, evalSt_spec]
+
+open EPV.Focus in
+/-- the discipline is needed: with the pre-F02g root path (item left on the document) a comparison on
+the shared context sees the second operand from the wrong node — `/* is .` at item 4: the model of
+the old code compares node 1 with node 0, the spec node 1 with node 4. -/
+theorem root_path_leak_witness :
+    let top : Sel := fun f => ([1], f)                       -- `*` below the document: the top element 1
+    let self : Sel := fun f => ([f.item], f)                 -- `.`
+    let f : Focus := ⟨4, 1, 1, none⟩
+    (cmpShared (fun a b => a ++ b) (rootPathOld top) self f).1 = [1, 0] ∧
+    evalPure (.cmp (fun a b => a ++ b) (.rootPath (.leaf fun _ => [1])) (.leaf fun i => [i])) f = [1, 4] := by
+  decide
 
 end EPV.C02
